@@ -63,6 +63,7 @@ func (c blockCase) pretty() []string {
 type blockResult struct {
 	viol       string
 	tags       string
+	more       [][2]string // further assertions (tags, message) that failed in the same block
 	yields     int
 	preempts   int
 	deadlock   bool
@@ -84,7 +85,7 @@ func runBlock(c blockCase, policy func(y vsync.Yield, i int) int) (res blockResu
 		ex.stepIdx = i
 		ex.Step(st)
 		if len(ex.Viol) > 0 {
-			res.viol, res.tags = "", "" // the sequential checks decide sequential behaviour
+			res.viol, res.tags, res.more = "", "", nil // the sequential checks decide sequential behaviour
 			w.Shutdown()
 			return
 		}
@@ -268,6 +269,12 @@ func runBlock(c blockCase, policy func(y vsync.Yield, i int) int) (res blockResu
 		}
 	}
 	fail := func(tags, f string, a ...any) {
+		if res.viol != "" {
+			// keep the later assertions too: each is an observation of the real state and stands
+			// on its own, and a property's check must not be blind to its own assertion because
+			// one of another property fired first (they only exist once something is violated)
+			res.more = append(res.more, [2]string{tags, fmt.Sprintf(f, a...)})
+		}
 		if res.viol == "" {
 			res.viol, res.tags = fmt.Sprintf(f, a...), tags
 		}
@@ -336,12 +343,17 @@ func runBlock(c blockCase, policy func(y vsync.Yield, i int) int) (res blockResu
 			if s.ParticipantCount() == 0 {
 				fail("C07", "session %q has no participant but its id still resolves", store.GlobalSessionID(s.ID))
 			}
-			if o := byID[s.ID]; o != nil && o != s {
-				fail("C10,C07", "two live sessions share the id %q", store.GlobalSessionID(s.ID))
-			}
-			byID[s.ID] = s
 		} else if s.ParticipantCount() > 0 {
 			fail("C07", "a session with %d participant(s) (numeric id %d) is not registered under its id", s.ParticipantCount(), s.ID)
+		}
+		// a session with members is live whether or not the registry still knows it: no two of
+		// them may carry the same id (the registry itself cannot hold two under one key, so this
+		// must not be restricted to the registered ones)
+		if s.ParticipantCount() > 0 {
+			if o := byID[s.ID]; o != nil && o != s {
+				fail("C10,C07", "two sessions that both have members share the id %q", store.GlobalSessionID(s.ID))
+			}
+			byID[s.ID] = s
 		}
 		// participant ids are unique within a session
 		seen := map[uint32]bool{}
@@ -1042,6 +1054,22 @@ func genFrameBlock(rt *rapid.T) blockCase {
 	return c
 }
 
+// violFor returns the first recorded violation of a block that bears on the property.
+func violFor(prop string, res blockResult) string {
+	if res.viol == "" {
+		return ""
+	}
+	if schedTags(prop, res.tags) {
+		return res.viol
+	}
+	for _, m := range res.more {
+		if schedTags(prop, m[0]) {
+			return m[1]
+		}
+	}
+	return ""
+}
+
 func schedTags(prop string, tags string) bool {
 	for _, t := range strings.Split(tags, ",") {
 		if t == prop {
@@ -1062,8 +1090,8 @@ func schedTest(t *testing.T, prop string) {
 			t.Skipf("replay file not usable: %v", err)
 		}
 		res := runBlock(c, func(y vsync.Yield, i int) int { return schedulePolicy(c.Choices, y, i) })
-		if res.viol != "" && schedTags(prop, res.tags) {
-			t.Fatalf("replay violates %s: %s", prop, res.viol)
+		if v := violFor(prop, res); v != "" {
+			t.Fatalf("replay violates %s: %s", prop, v)
 		}
 		return
 	}
@@ -1107,24 +1135,24 @@ func schedTest(t *testing.T, prop string) {
 		}
 		c.Choices = draw()
 		report := func(res blockResult, choices []int) {
-			if res.viol != "" && schedTags(prop, res.tags) {
+			if v := violFor(prop, res); v != "" {
 				col.Violations++
 				cc := c
 				cc.Choices = choices
 				saveCase(prop, cc)
-				rt.Fatalf("%s violated: %s\n%s\nschedule:\n  %s", prop, res.viol, strings.Join(cc.pretty(), "\n"), strings.Join(res.trace, "\n  "))
+				rt.Fatalf("%s violated: %s\n%s\nschedule:\n  %s", prop, v, strings.Join(cc.pretty(), "\n"), strings.Join(res.trace, "\n  "))
 			}
 		}
-		if res0.viol != "" && schedTags(prop, res0.tags) {
+		if v := violFor(prop, res0); v != "" {
 			col.Violations++
 			cc := c
 			cc.Choices = base
 			saveCase(prop, cc)
-			rt.Fatalf("%s violated: %s\n%s\nschedule:\n  %s", prop, res0.viol, strings.Join(cc.pretty(), "\n"), strings.Join(res0.trace, "\n  "))
+			rt.Fatalf("%s violated: %s\n%s\nschedule:\n  %s", prop, v, strings.Join(cc.pretty(), "\n"), strings.Join(res0.trace, "\n  "))
 		}
 		res := run(c.Choices)
 		b, _ := jsonMarshal(c)
-		col.Case(b, res.preempts >= 1, map[string]int{"yields": res.yields, "preempted": res.preempts, "deadlock": b2i(res.deadlock), "other_property": b2i(res.viol != "" && !schedTags(prop, res.tags)), "block_with_frame": b2i(c.Frames)}, func() any { return c.pretty() })
+		col.Case(b, res.preempts >= 1, map[string]int{"yields": res.yields, "preempted": res.preempts, "deadlock": b2i(res.deadlock), "other_property": b2i(res.viol != "" && violFor(prop, res) == ""), "block_with_frame": b2i(c.Frames)}, func() any { return c.pretty() })
 		report(res, c.Choices)
 		// a few more sampled schedules of the same block
 		for j := 0; j < 10; j++ {
